@@ -452,6 +452,10 @@ func readDnsMsgFromBufio(reader *bufio.Reader, timeout time.Duration, conn net.C
 		if err := conn.SetReadDeadline(time.Now().Add(timeout)); err != nil {
 			return nil, 0, err
 		}
+		// The deadline only bounds this detection read. Clear it on every exit: when the
+		// stream turns out not to be DNS the connection falls through to the normal relay,
+		// which must not inherit an armed read deadline.
+		defer func() { _ = conn.SetReadDeadline(time.Time{}) }()
 	}
 
 	// Peek 2-byte length prefix first (don't consume)
